@@ -118,12 +118,22 @@ def main():
     L.setup(limit_threads=False)
     from lenskit.training import TrainingOptions
 
-    ds = L.dataset(job["dataset"])
+    if job.get("synthetic"):        # many users / items, few ratings: embedding matrices beyond the size thresholds
+        from c11_ambient import synthetic_dataset
+        ds = synthetic_dataset(job["synthetic"])
+    else:
+        ds = L.dataset(job["dataset"])
     out = {}
+    num = {}
     for label, kind, cfg in job["models"]:
         c = L.make(kind, cfg)
         c.train(ds, TrainingOptions(rng=job["seed"]))
         out[label] = {k: v for k, v in L.store_of(c).items() if not k.startswith("_")}
+        if job.get("synthetic"):        # the floating-point content, for comparisons up to rounding
+            from c11_ambient import numeric_fingerprint
+            num[label] = {k: numeric_fingerprint(v) for k, v in vars(c).items() if k != "config" and not k.startswith("_")}
+    out["_numeric"] = num
+    out["_sizes"] = [int(ds.user_count), int(ds.item_count), int(ds.interaction_count)]
     import torch
     from lenskit.parallel import get_parallel_config
 
